@@ -18,7 +18,8 @@ from .parser_checks import _quiet
 # documents and named configurations
 # ----------------------------------------------------------------------------------------------
 
-I1 = {'events': [dzn.event('Claim', 'in', ['Res'], [dzn.formal('a', ['T'], 'in'), dzn.formal('b', ['T'], 'out')]),
+# (the claim event's parameters are called like the generated claim lambda's own names: texts only, nothing is compiled here)
+I1 = {'events': [dzn.event('Claim', 'in', ['Res'], [dzn.formal('identifier', ['T'], 'in'), dzn.formal('r', ['T'], 'out')]),
                  dzn.event('Release', 'in'), dzn.event('Use', 'in', ['void'], [dzn.formal('x', ['T'], 'inout')]),
                  dzn.event('Sig', 'out', ['void'], [dzn.formal('c', ['T'], 'in')])]}
 I2 = {'events': [dzn.event('Cmd', 'in', ['bool'], [dzn.formal('x', ['T'], 'in')]),
@@ -383,6 +384,38 @@ def run_history(args):
     return events
 
 
+def edited_configuration(chk):
+    """A configuration object that was built, then edited by its owner and built again gives what a fresh configuration
+    with the edited values gives: a build leaves nothing behind in the configuration that later builds read."""
+    core.repo_guard()
+    import dznpy.adv_shell as adv  # pylint: disable=import-outside-toplevel
+    for doc in ('A', 'B'):
+        fct = _quiet(shell.parse, DOCS[doc]())
+        for name in ('sts', 'mc', 'prefixed'):
+            desc = real_names(named_cfg(name, doc))
+            edited = dict(desc, suffix='Edited', file='sub/Renamed.dzn')
+            try:
+                cfg = shell.make_configuration(desc, fct)
+                _quiet(adv.Builder().build, cfg)
+                cfg.output_basename_suffix = 'Edited'
+                cfg.dezyne_filename = 'sub/Renamed.dzn'
+            except (AttributeError, TypeError):
+                continue                      # configuration objects are immutable: nothing to probe
+            chk.count(('edited-configuration', doc, name))
+            try:
+                again = _quiet(adv.Builder().build, cfg)
+                fresh = _quiet(adv.Builder().build, shell.make_configuration(edited, fct))
+            except Exception as exc:  # pylint: disable=broad-except
+                chk.violation(f'edited configuration ({doc}/{name}): {type(exc).__name__}: {exc}', {'doc': doc, 'cfg': name})
+                continue
+            got = sorted((g.filename, g.hash) for g in again.files)
+            want = sorted((g.filename, g.hash) for g in fresh.files)
+            if got != want:
+                diff = [x for x in got if x not in want][:3]
+                chk.violation(f'a configuration that was built, edited (suffix, file name) and built again differs from a fresh '
+                              f'configuration with the same values: {diff}', {'doc': doc, 'cfg': name, 'got': got, 'fresh': want})
+
+
 def check_c12(tier, seed):
     import multiprocessing  # pylint: disable=import-outside-toplevel
     chk = core.Check('C12', tier, seed)
@@ -424,6 +457,7 @@ def check_c12(tier, seed):
     for evt in tevents:
         chk.count(('texts', evt['key']))
     validate(chk, [{'id': 'texts', 'events': tevents}], 'free-text inputs')
+    edited_configuration(chk)
     chk.traces = len(hists)
     chk.exhaustive = True
     chk.assumptions = ['"observably unchanged" = equal deep structural digest of FileContents and Configuration (every '
